@@ -121,8 +121,9 @@ def one_fault(rep, drv, contents, ci, seed, case_dir, src_root, dst_root, out_ro
     ev, bad = parse_json_lines(out)
     summ = next((e for e in ev if e.get("type") == "summary"), None)
     rel_of = lambda p: os.path.relpath(p, dst_root)
-    real_events = sorted((e["type"][0], rel_of(e["path"])) for e in ev if e.get("type") in ("create", "update", "skip", "delete"))
-    real_errors = sorted(rel_of(e["path"]) for e in ev if e.get("type") == "error")
+    unl = unlossy(set(pre_src) | set(pre_dst) | set(post_dst))
+    real_events = sorted((e["type"][0], unl(rel_of(e["path"]))) for e in ev if e.get("type") in ("create", "update", "skip", "delete"))
+    real_errors = sorted(unl(rel_of(e["path"])) for e in ev if e.get("type") == "error")
     desc = {"case": ci, "seed": seed, "flags": flags, "env": env, "faults": faults, "rc": rc, "errors": real_errors[:5], "stderr": err[-200:],
             "src": {r: (n["k"], n.get("size"), n.get("text")) for r, n in sorted(pre_src.items())},
             "dst": {r: (n["k"], n.get("size"), n.get("text")) for r, n in sorted(pre_dst.items())}}
